@@ -9,7 +9,7 @@ PROP = "C07"
 GENERATED = ['DtypeTables', 'Wrapper', 'SrcHints', 'SrcDecorate', 'Core', 'SrcExpand', 'HintLoop', 'Decorate']  # generated files this check's tie depends on
 LEAN_MODULES = ["Properties.C07", "Properties.CoreWrap", "Properties.Prov.Hints", "Properties.Prov.Decorate", "Properties.Core", "Properties.Prov.Expand", "Properties.CoreHints", "Properties.CoreDecorate"]
 RULE = (
-    "seeded dltyped functions (1-4 parameters, tuples, optionals, providers, return hint; positional, keyword, mixed, keyword-only and positional-only parameters, forward references) called with inputs that are conforming except "
+    "seeded dltyped functions (1-4 parameters, tuples, optionals, providers, return hint; positional, keyword, mixed, keyword-only and positional-only parameters, forward references, trailing parameters left at their default value) called with inputs that are conforming except "
     "for one violation placed in a single argument position / tuple element, or only in the return value; the body appends to a side-effect "
     "log and assert_context is logged too (harness-side wrapper), so the order of events is observed: no body event before a rejected "
     "argument check, exactly one body event before a rejected return check. non-trivial = distinct line whose argument or return phase "
@@ -21,7 +21,9 @@ def cases(tier, rng, run):
     out = [Case(l, "corpus") for l in run.corpus_lines()]
     for _ in range(9000 if tier == "quick" else 150000):
         c = gen_ctx.gen_ctx(rng, perturb=(1,), tuple_p=0.25, ret_p=0.6)
-        out.append(Case(c.call_line("func", rng.choice(["pos", "kw", "mixed", "fwd", "kwonly", "posonly"])), "call", {"ctx": c}))
+        # (a third of the calls leave the last 1-2 parameters at their DEFAULT value: a default is an argument like any other)
+        omit = rng.choice([0, 0, 0, 0, 1, 2])
+        out.append(Case(c.call_line("func", rng.choice(["pos", "kw", "mixed", "fwd", "kwonly", "posonly"]), omit=omit), "call", {"ctx": c}))
     return out
 
 
